@@ -89,11 +89,45 @@ def aim_windows(rng, cases):
         c['aimed'] = mode
 
 
+def gen_big(rng):
+    """size: images of several KiB in which multi-byte lines straddle the multiples of 256 / 1024 / 4096 counted from the
+    window start, a long fill crosses several of them, and the window starts on / off such a boundary"""
+    cfg = {'bits': 16, 'little': rng.random() < 0.5, 'regs': ['ra', 'rb'], 'preZones': [], 'preConsts': [], 'preData': []}
+    start = rng.choice([0, 0, 1, 0x101, 0x0FFF, 0x1000])
+    stmts, cur = [], start
+    block = rng.choice([256, 1024, 4096, 4096, 4096])
+    nblocks = rng.randint(2, 4)
+    for k in range(1, nblocks + 1):
+        b = start + k * block
+        at = b - rng.choice([1, 2, 3, 1])
+        if at <= cur:
+            continue
+        stmts.append({'k': 'org', 'e': ('num', at)})
+        kind = rng.choice(['data4', 'data2', 'fill', 'bytes'])
+        if kind == 'data4':
+            stmts.append({'k': 'data', 'w': 4, 'vals': [('num', rng.randint(0x01020304, 0xFFFFFFFF))]})
+            cur = at + 4
+        elif kind == 'data2':
+            stmts.append({'k': 'data', 'w': 2, 'vals': [('num', rng.randint(0x0102, 0xFFFF)), ('num', rng.randint(0x0102, 0xFFFF))]})
+            cur = at + 4
+        elif kind == 'fill':
+            n = rng.choice([5, 300, block + 7])
+            stmts.append({'k': 'fill', 'cnt': ('num', n), 'val': ('num', rng.randint(1, 255))})
+            cur = at + n
+        else:
+            stmts.append({'k': 'data', 'w': 1, 'vals': [('num', rng.randint(1, 255)) for _ in range(6)]})
+            cur = at + 6
+    fill = rng.choice([0, 0xFF, 0x5A])
+    end = rng.choice([None, None, cur - 1, cur + 10, start + nblocks * block - 1, start + nblocks * block])
+    return {'cfg': cfg, 'files': [stmts], 'start': start, 'end': end, 'fill': fill, 'seed': rng.randrange(1 << 30),
+            'tail_empty': False, 'big': True}
+
+
 def generate(rng, tier):
     n = 500 if tier == 'quick' else 12000
     cases = [gen_case(rng, tier) for _ in range(n)]
     aim_windows(rng, cases)
-    return cases
+    return cases + [gen_big(rng) for _ in range(n // 40)]
 
 
 def render(case):
@@ -133,6 +167,8 @@ def judge(case, ir, mr):
     both = any(l['addr'] < s and e is not None and e < l['addr'] + len(l['bytes']) - 1 for l in lines if not l['muted'])
     if both:
         tags.append('window-strictly-inside-one-line')
+    if case.get('big'):
+        tags.append('image-of-several-KiB')
     if case.get('tail_empty'):
         tags.append('empty-line-behind-last-byte')
     if case.get('aimed'):
